@@ -217,10 +217,7 @@ fn graph_of<'a>(block: &BasicBlock<'a>, h: H) -> Result<QubitGraph<'a>, String> 
 fn observe(block: &BasicBlock, h: H) -> Sexp {
     let graph = match graph_of(block, h) {
         Ok(g) => g,
-        Err(msg) => {
-            assert!(msg.contains("Unsupported instruction"));
-            return tagged("err", vec![]);
-        }
+        Err(_formatted) => return tagged("err", vec![]),
     };
     let (n, edges) = hook::edges(&graph);
     let asc: Vec<Sexp> = KS.iter().map(|k| nat(graph.gate_depth(*k) as u64)).collect();
@@ -233,16 +230,15 @@ fn observe(block: &BasicBlock, h: H) -> Sexp {
     // a graph used first with a LARGE threshold, then with small ones
     let g2 = graph_of(block, h).expect("third construction");
     let big_first: Vec<Sexp> = [7usize, 0, 5, 1, 2].iter().map(|k| nat(g2.gate_depth(*k) as u64)).collect();
+    // the SET of values `path_fold` produced (how many paths carry a value is not constrained by the
+    // property: it depends on whether parallel edges are kept)
     let paths: Vec<Sexp> = KS
         .iter()
         .map(|k| {
             let mut p = hook::path_counts(&graph, *k);
-            if p.len() <= 64 {
-                p.sort();
-                tagged("p", p.into_iter().map(|x| nat(x as u64)).collect())
-            } else {
-                tagged("many", vec![nat(p.len() as u64)])
-            }
+            p.sort();
+            p.dedup();
+            tagged("pv", p.into_iter().map(|x| nat(x as u64)).collect())
         })
         .collect();
     let (n2, edges2) = hook::edges(&graph);
